@@ -86,6 +86,7 @@ func (c *c07) corpusUnit(r *Rng, i int) {
 		return
 	}
 	it := items[i]
+	c.curKey = ""
 	c.res.Count("corpus:programs")
 	saved := judgeUnique
 	defer func() { judgeUnique = saved }()
@@ -180,6 +181,13 @@ var seededCases = []seededCase{
 	{Prog: "fork ( => sort k => sort a ) | right join on k=a z:=c"},
 	{Prog: "fork ( => pass => pass ) | join on k=k z:=c", Decl: "k:asc"},
 	{Prog: "fork ( => pass => sort -r k ) | anti join on k=k", Decl: "k:desc", Null: true},
+	{Prog: "fork ( => pass => put n.z:=1 | uniq ) | join on k=k rid:=id", Decl: "k:desc", Big: true},
+	{Prog: "put n:={x:c} | count() by n.x | sort n.x", Decl: "n.x:asc", Big: true},
+	{Prog: "rename m:=n | count() by n.x", Decl: "n.x:desc", Big: true},
+	{Prog: "union(c) by n.x with -limit 3 | sort n.x", Decl: "n.x:desc", Big: true},
+	{Prog: "summarize and(a > 0) by k with -limit 3", Decl: "k:asc", Big: true},
+	{Prog: "summarize union(a) by k", Decl: "k:asc", Big: true, Null: true},
+	{Prog: "fork ( => fuse => pass ) | sort n.x"},
 }
 
 func parseDeclString(s string) *order.SortKey {
@@ -206,6 +214,7 @@ func (c *c07) seededUnit(i int) {
 		n = 230 + r.Intn(80)
 	}
 	input := genInput(r, inputCfg{N: n, KeyPath: keyPath, KeysMixed: sc.Null})
+	c.curKey = keyPath
 	c.res.Count("seeded:programs")
 	if decl == nil {
 		c.fileCase("seeded", sc.Prog, input, nil)
